@@ -7,3 +7,5 @@ open GrVerif.Props.C05
 #print axioms pipeline_assoc_in_range
 #print axioms cinfo_values_are_slot_indices
 #print axioms associateChars_keeps_slot_ranges
+#print axioms association_covers_every_character
+#print axioms every_character_gets_slot_indices
